@@ -484,6 +484,8 @@ fn write_replay(id: &str, sig: &str, msg: &str, input: &Value, decoded: &Value, 
     let body = json!({
         "property": id, "signature": sig, "message": msg, "input": input, "decoded": decoded,
         "origin": origin, "gen_version": GEN_VERSION,
+        // C19's generated zoo is a build-time input: `./check --replay` rebuilds with this seed
+        "zoo_seed": crate::func::zoo2::ZOO2_SEED,
         "replay": format!("./check {id} --replay <this file>"),
     });
     let h = hash_str(&format!("{sig}{input}"));
@@ -764,6 +766,11 @@ pub fn parent(prop: &dyn Property, tier: Tier, seed: u64) -> i32 {
         if let Some(v) = std::fs::read_to_string(&p).ok().and_then(|s| serde_json::from_str::<Value>(&s).ok()) {
             coverage["fuzz_execs"] = v["execs"].clone();
             coverage["fuzz_campaign"] = v;
+        }
+    }
+    if let Ok(p) = std::env::var("VLAB_ZOO_SWEEP") {
+        if let Some(v) = std::fs::read_to_string(&p).ok().and_then(|s| serde_json::from_str::<Value>(&s).ok()) {
+            coverage["generated_zoo_sweep"] = v;
         }
     }
     let ev = json!({
